@@ -25,6 +25,9 @@ void vt_force_pair (V& v, const V& cv, VM& m, const VM& cm, A a)
   (void) (cv == cm);
   (void) (cv != cm);
   (void) (cv < cm);
+  (void) (cv <= cm);
+  (void) (cv > cm);
+  (void) (cv >= cm);
 }
 #endif
 
